@@ -381,8 +381,8 @@ def check_relax_fixpoint(chk, prog):
         some = [tb for v, tb in g.term(sw)[2] if v == "1"] if g.term(sw)[0] == "switch" else []
         pushes = {c.bb for c in g.calls if c.p.endswith("Vec::push") and any(a[0] == "call" and a[1].endswith("compute_cost_node") for a in g.origins(c.args[1]))}
         if some and pushes and chain_ok:
-            r = {some[0]} | g.reach_avoiding([some[0]], pushes)
-            ok_l = n0.bb not in r
+            from ..util import escapes
+            ok_l = not escapes(g, some[0], pushes, n0.bb)
     chk.judge(ok_t and ok_l, R, "Extractor::compute_cost_hyperedge:all-children", "the cost of every child column (up to extraction_num_children) enters the fold",
               "compute_cost_hyperedge can skip a child's cost (bound is not extraction_num_children(), or an iteration continues without pushing the child's cost): the reported "
               "cost is lower than the tree cost of the term", g.loc)
